@@ -9,7 +9,7 @@ ENGINE = "E-hyp"
 TECHNIQUE = "property-based testing against a VFS model: generated mapping sets over a scratch directory tree with inside and outside files carrying unique tokens; requests (canonical, mutated, traversal attempts) through loadFile, preprocessFile(LineNumbers), execVM and #include; strong oracle for canonical requests, containment oracle for all"
 RULE = ("cases = 1-4 mappings (nested virtual prefixes, two roots on one prefix, the root prefix) over a fixed scratch tree (two inside roots with sub directories, one "
         "outside directory, one file above the roots), one request path (canonical virtual path, relative path, .. at every position, //, backslashes, mixed, trailing "
-        "separator, absolute physical path inside/outside a root, escape through a mapped root) and one access operation (loadFile, preprocessFile, "
+        "separator, absolute physical path inside/outside a root, escape through a mapped root, a file reached through the VFS that itself includes x, ../x or d/x by relative path with same-named files in the mapped root and its sub directories) and one access operation (loadFile, preprocessFile, "
         "preprocessFileLineNumbers, execVM, #include from a file at depth <=3); non-trivial = the request is not the canonical spelling or >=2 mappings overlap; "
         "distinct = SHA-1 of the case")
 LEVEL_TEXT = ("Exploration with a reference resolver: for requests without '..' the returned content must be that of the model's file (or both not found); "
@@ -19,14 +19,28 @@ LEVEL_NOTE = ("Trusted: the Python resolver in this file (deepest mapped prefix,
               "Not asserted: symlinks; for requests with '..' only containment.")
 ASSUMPTIONS = ["the scratch tree is private to the worker", "requests with '..' in the unmatched remainder may resolve to the normalised target or to not-found"]
 SIZES = {"quick": dict(budget_s=45, batch=100), "thorough": dict(budget_s=600, batch=200)}
-FLOORS = {"nontrivial": 0.5, "kind_traverse": 0.2}
+FLOORS = {"nontrivial": 0.5, "kind_traverse": 0.2, "relinc_decided": 0.03}
 
 TREE = {
     "inside1/f1.sqf": "I1F1", "inside1/only1.sqf": "I1ONLY", "inside1/sub/f2.sqf": "I1F2", "inside1/sub/deep/f3.sqf": "I1F3", "inside1/sub/deep/inc.hpp": "I1INC",
     "inside2/f1.sqf": "I2F1", "inside2/g.sqf": "I2G", "inside2/sub/f2.sqf": "I2F2", "inside2/c/h.sqf": "I2H",
+    "inside1/common.hpp": "I1COMMON", "inside1/sub/common.hpp": "I1SUBCOMMON", "inside1/sub/deep/common.hpp": "I1DEEPCOMMON", "inside2/common.hpp": "I2COMMON",
+    "inside2/sub/common.hpp": "I2SUBCOMMON", "outside/common.hpp": "OUTCOMMON",
     "outside/secret.sqf": "OUTSECRET", "outside/f1.sqf": "OUTF1", "top_secret.sqf": "TOPSECRET",
 }
 MAPPINGS = [("inside1", "/a"), ("inside2", "/a"), ("inside1/sub", "/a/sub"), ("inside2", "/b/c"), ("inside1", "/"), ("inside2/c", "/a/sub/deep"), ("inside1/sub/deep", "/x")]
+
+
+# files that include by relative path: (own token, [relative include paths])
+RELINC = {
+    "inside1/rel.sqf": ("I1REL", ["common.hpp"]),
+    "inside1/sub/rel.sqf": ("I1SUBREL", ["common.hpp"]),
+    "inside1/sub/up.sqf": ("I1SUBUP", ["../common.hpp"]),
+    "inside1/sub/deep/rel.sqf": ("I1DEEPREL", ["common.hpp"]),
+    "inside1/sub/deep/up.sqf": ("I1DEEPUP", ["../common.hpp"]),
+    "inside2/sub/rel.sqf": ("I2SUBREL", ["common.hpp"]),
+    "inside1/sub/down.sqf": ("I1SUBDOWN", ["deep/common.hpp"]),
+}
 
 
 def make_tree(base):
@@ -35,6 +49,11 @@ def make_tree(base):
         os.makedirs(os.path.dirname(p), exist_ok=True)
         with open(p, "w") as f:
             f.write('diag_log "TOK_%s";\n' % tok)
+    for rel, (tok, incs) in RELINC.items():
+        p = os.path.join(base, rel)
+        os.makedirs(os.path.dirname(p), exist_ok=True)
+        with open(p, "w") as f:
+            f.write('diag_log "TOK_%s";\n' % tok + "".join('#include "%s"\n' % i for i in incs))
 
 
 class Vfs:
@@ -70,7 +89,7 @@ class Vfs:
 def _cases(draw):
     nm = draw(st.integers(1, 4))
     maps = draw(st.lists(st.sampled_from(MAPPINGS), min_size=nm, max_size=nm, unique=True))
-    kind = draw(st.sampled_from(["traverse", "traverse", "traverse", "traverse", "canonical", "canonical", "mutate", "mutate", "physical", "physical", "relative"]))
+    kind = draw(st.sampled_from(["traverse", "traverse", "traverse", "traverse", "canonical", "canonical", "mutate", "mutate", "physical", "physical", "relative", "relinc", "relinc"]))
     # canonical virtual targets: every file below every mapped prefix plus some misses
     virt_dirs = sorted({v for _p, v in maps})
     vdir = draw(st.sampled_from(virt_dirs))
@@ -118,6 +137,18 @@ def _cases(draw):
             req = "@PHYS@/inside1/../" + rel
     elif kind == "relative":
         req = "/".join(segs[-draw(st.integers(1, len(segs))):])
+    elif kind == "relinc":
+        # a file reached through the VFS that includes by relative path
+        phys, virt = draw(st.sampled_from(maps))
+        cands = sorted(r for r in RELINC if r.startswith(phys + "/"))
+        if cands:
+            rel = draw(st.sampled_from(cands))
+            req = virt.rstrip("/") + "/" + rel[len(phys) + 1:]
+        else:
+            req = virt.rstrip("/") + "/rel.sqf"
+        op = draw(st.sampled_from(["preprocessFile", "preprocessFileLineNumbers", "execVM", "include"]))
+        inc_from = draw(st.sampled_from(["inside1/f1.sqf", "inside2/c/h.sqf"]))
+        return dict(maps=[list(m) for m in maps], req=req, op=op, inc_from=inc_from, kind=kind, labs=labs)
     op = draw(st.sampled_from(["loadFile", "preprocessFile", "preprocessFileLineNumbers", "execVM", "include", "include"]))
     inc_from = draw(st.sampled_from(["inside1/f1.sqf", "inside1/sub/f2.sqf", "inside1/sub/deep/f3.sqf", "inside2/c/h.sqf"]))
     return dict(maps=[list(m) for m in maps], req=req, op=op, inc_from=inc_from, kind=kind, labs=labs)
@@ -172,6 +203,7 @@ def check(case, env):
     ctx = "mappings (physical|virtual): %s\noperation: %s, request: %r%s\n" % (maps, op, req, (" from " + case["inc_from"]) if op == "include" else "")
     v = None
     tok_path = {t: rel for rel, t in TREE.items()}
+    tok_path.update({t: rel for rel, (t, _i) in RELINC.items()})
     if "exception" in rep1:
         v = viol("exception|" + op, ctx + "exception escaped: %s" % rep1["exception"])
     elif _tokens(txt2) != got or bool(errs1) != bool(errs2):
@@ -185,6 +217,26 @@ def check(case, env):
             if not vfs.inside(p):
                 v = viol("escape|%s|%s" % (op, case["kind"]), ctx + "the request yielded the content of %s, which lies outside every mapped physical directory" % p)
                 break
+        if v is None and case["kind"] == "relinc":
+            segs = [x for x in req.split("/") if x]
+            top = vfs.resolve(segs)
+            if top and os.path.relpath(top, base) in RELINC:
+                own, incs = RELINC[os.path.relpath(top, base)]
+                want = {own}
+                ambiguous = False
+                for inc in incs:
+                    phys_t = os.path.normpath(os.path.join(os.path.dirname(top), inc))
+                    vsegs = os.path.normpath("/" + "/".join(segs[:-1]) + "/" + inc).split("/")
+                    virt_t = vfs.resolve([x for x in vsegs if x])
+                    if virt_t is None or os.path.realpath(virt_t) != os.path.realpath(phys_t):
+                        ambiguous = True       # the virtual and the physical reading of "relative to the including file" differ: containment only
+                    t = TREE.get(os.path.relpath(phys_t, base))
+                    if t:
+                        want.add(t)
+                labs.add("relinc_ambiguous" if ambiguous else "relinc_decided")
+                if not ambiguous and got != want:
+                    v = viol("relative-include-wrong-file|%s" % op, ctx + "the file includes %s relative to itself (%s); expected the content of %s, got %s" % (
+                        incs, os.path.relpath(top, base), sorted(want), sorted(tok_path.get(t, t) for t in got) or "nothing"))
         # strong oracle (requests without '..' and with a virtual spelling)
         if v is None and case["kind"] in ("canonical", "mutate") and ".." not in req:
             segs = [s for s in req.replace("\\", "/").split("/") if s and s != "."]
